@@ -162,3 +162,78 @@ Proof.
   clear Hneg. induction Hh as [|h' h t' t Hx _ IH]; [reflexivity|].
   cbn [map]. rewrite !zsum_cons, Hx, IH. reflexivity.
 Qed.
+
+(* ---- element level: every element keeps its rings, each the same or reversed ---- *)
+
+Definition same_or_rev (r' r : list num) : Prop := r' = r \/ r' = rev_ring r.
+
+Lemma segs_ring_at : forall v ro, segs v ro = map (ring_at v ro) (seq 0 (length ro - 1)).
+Proof.
+  intros v ro. rewrite segs_seq. apply map_ext. intros i. unfold ring_at.
+  replace (i + 1) with (S i) by lia. reflexivity.
+Qed.
+
+Lemma Forall2_map_same : forall A B (R : B -> B -> Prop) (f g : A -> B) l,
+  (forall x, In x l -> R (f x) (g x)) -> Forall2 R (map f l) (map g l).
+Proof.
+  intros A B R f g l H. induction l as [|x t IH]; [constructor|].
+  cbn [map]. constructor; [apply H; left; reflexivity|].
+  apply IH. intros y Hy. apply H. right. exact Hy.
+Qed.
+
+Lemma Forall2_firstn : forall A (R : A -> A -> Prop) n l1 l2,
+  Forall2 R l1 l2 -> Forall2 R (firstn n l1) (firstn n l2).
+Proof.
+  intros A R n. induction n as [|n IH]; intros l1 l2 H; [constructor|].
+  destruct H; cbn [firstn]; constructor; auto.
+Qed.
+
+Lemma Forall2_skipn : forall A (R : A -> A -> Prop) n l1 l2,
+  Forall2 R l1 l2 -> Forall2 R (skipn n l1) (skipn n l2).
+Proof.
+  intros A R n. induction n as [|n IH]; intros l1 l2 H; [exact H|].
+  destruct H; cbn [skipn]; [constructor | auto].
+Qed.
+
+Lemma Forall2_slice : forall A (R : A -> A -> Prop) s e l1 l2,
+  Forall2 R l1 l2 -> Forall2 R (slice s e l1) (slice s e l2).
+Proof. intros. unfold slice. apply Forall2_firstn, Forall2_skipn. assumption. Qed.
+
+Theorem orient_segs : forall vals po ro,
+  mono ro = true -> last ro 0 <= length vals ->
+  Forall2 same_or_rev (segs (orient_polygons vals po ro) ro) (segs vals ro).
+Proof.
+  intros vals po ro Hm Hl.
+  destruct (orient_rings vals po ro Hm Hl) as (_ & R & _ & _).
+  rewrite !segs_ring_at. apply Forall2_map_same.
+  intros j Hj. apply in_seq in Hj. rewrite (R j) by lia.
+  destruct (flips vals po ro j); [right | left]; reflexivity.
+Qed.
+
+Theorem polygon_oriented_elements : forall a o0 o1,
+  la_offs a = [o0; o1] -> wf_listarr a = true ->
+  forall i, Forall2 same_or_rev (elem_rings (polygon_oriented a) i) (elem_rings a i).
+Proof.
+  intros a o0 o1 E Hwf i.
+  destruct (wf2 a o0 o1 E Hwf) as (Hlen & Hm0 & Hl0 & Hm1 & Hl1).
+  destruct (o0s_facts a o0 Hlen Hm0) as (HL & Hms & Hstep & Hle & Hin).
+  unfold elem_rings at 1. rewrite (polygon_oriented_unfold a o0 o1 E).
+  rewrite buffer_offsets_fresh by exact HL.
+  unfold elem_rings, buffer_offsets. rewrite E. fold (o0s a o0).
+  cbn [buffer_values la_vals].
+  apply Forall2_slice, orient_segs; assumption.
+Qed.
+
+Theorem multipolygon_oriented_elements : forall a o0 o1 o2,
+  la_offs a = [o0; o1; o2] -> wf_listarr a = true ->
+  forall i, Forall2 same_or_rev (elem_rings (multipolygon_oriented a) i) (elem_rings a i).
+Proof.
+  intros a o0 o1 o2 E Hwf i.
+  destruct (wf3 a o0 o1 o2 E Hwf) as (Hlen & Hm0 & Hl0 & Hm1 & Hl1 & Hm2 & Hl2).
+  destruct (o0s_facts a o0 Hlen Hm0) as (HL & Hms & Hstep & Hle & Hin).
+  unfold elem_rings at 1. rewrite (multipolygon_oriented_unfold a o0 o1 o2 E).
+  rewrite buffer_offsets_fresh by exact HL.
+  unfold elem_rings, buffer_offsets. rewrite E. fold (o0s a o0).
+  cbn [buffer_values la_vals].
+  apply Forall2_slice, orient_segs; assumption.
+Qed.
